@@ -4,7 +4,8 @@
 (* with the independent reader.  Per document the trace holds                                      *)
 (*   NEW   : the program, options and metadata request                                             *)
 (*   CALL  : one event per program slot, with the objects whose bytes were written during the call *)
-(*   CLOSE : the objects written by Close, and the parsed document record                          *)
+(*   CLOSE : the objects written by Close, the parsed document record, and the strings the layout   *)
+(*           asked to show in standard (WinAnsi) fonts                                             *)
 (* Every event is consumed by the corresponding action of the protocol machine of PDFDoc (Step /   *)
 (* Close).  At CLOSE the validity predicates (the property) are evaluated on the record together    *)
 (* with the request; the set of failing signatures is printed.  The comparison of what each call    *)
@@ -38,7 +39,7 @@ PagesObs == LET d == Ev.doc IN
                  [id |-> Ev.id, layout |-> 0, model |-> done', file |-> <<>>])
 
 TClose == /\ Is({"CLOSE"}) /\ Close /\ LayoutObs /\ PagesObs
-          /\ LET f == Diag(Ev.doc, Request(info)) IN Note(f # {}, [id |-> Ev.id, fails |-> f])
+          /\ LET f == Diag(Ev.doc, Request(info)) \cup InShownTextVerbatimDiag(Ev.doc, Ev.want) IN Note(f # {}, [id |-> Ev.id, fails |-> f])
 
 TInit == /\ l = 1
          /\ opts = OneTrue(TRUE) /\ prog = <<>> /\ info = Mixed /\ infoAt = 0
